@@ -1197,11 +1197,20 @@ class Engine:
                 fns = pick
         if len(fns) > 1 and call.callee.qself:
             # compare full self types
-            qs = call.callee.qself.replace(' ', '')
+            def _norm(t):
+                t = t.replace(' ', '')
+                refs = ''
+                while t.startswith('&'):
+                    refs += '&'
+                    t = t[1:]
+                    if t.startswith('mut') and not t[3:4].isalnum():
+                        t = t[3:]
+                return refs + t.split('::')[-1]
+            qs = _norm(call.callee.qself)
             pick = []
             for f in fns:
                 info = srcindex.impl_info(*f.impl_loc) if f.impl_loc else None
-                if info and info['self_full'].replace(' ', '').split('::')[-1] == qs.split('::')[-1]:
+                if info and _norm(info['self_full']) == qs:
                     pick.append(f)
             if pick:
                 fns = pick
@@ -1335,6 +1344,11 @@ class Engine:
                     raise PathEnd('panic', t[1])
                 else:
                     raise Inconclusive('terminator %r' % (t,))
+        except Inconclusive as e:
+            if not getattr(e, 'stack_noted', False):
+                e.stack_noted = True
+                e.args = ((str(e.args[0]) if e.args else '') + ' @ ' + ' > '.join(x[-60:] for x in self.call_stack[-6:]),) + tuple(e.args[1:])
+            raise
         finally:
             self.depth -= 1
             self.call_stack.pop()
@@ -1831,7 +1845,7 @@ def _subtree(args):
             if out is not None:
                 leaves.append(out)
     except Inconclusive as e:
-        problem = str(e)[:2000] + ' @ ' + ' > '.join(x[-60:] for x in engine.call_stack[-5:])
+        problem = str(e)[:2000]
     except BaseException as e:
         import traceback
         problem = 'engine error: %r %s' % (e, traceback.format_exc()[-2500:])
@@ -1880,7 +1894,6 @@ def _explore_parallel(engine, run, on_path, jobs, max_paths, deadline, timeout_m
         try:
             out, alts = _leaf(engine, ctx, run, on_path, stats)
         except Inconclusive as e:
-            e.args = (str(e) + ' @ ' + ' > '.join(x[-60:] for x in engine.call_stack[-5:]),)
             raise
         q.extend(alts)
         if out is not None:
